@@ -6,10 +6,15 @@ package lexer
 
 const vhMaxTokens = 4 // @tier quick=4 thorough=7
 
-const (
-	vhElideA TokenType = -2
-	vhElideB TokenType = -3
-)
+// the elision set of a path: one of these pairs, chosen in vhTokens (types next
+// to EOF, types far from it -- the 63rd and later symbols of a lexer --, and
+// positive types as hand-written definitions use them).  The specification
+// below speaks of this set, not of the implementation's representation of it.
+var vhElidePairs = [][2]TokenType{{-2, -3}, {-64, 9}, {-70, 64}}
+
+var vhElideA, vhElideB TokenType = -2, -3
+
+func vhIsElidedType(t TokenType) bool { return t == vhElideA || t == vhElideB }
 
 type vhSliceLexer struct {
 	toks []Token
@@ -28,6 +33,8 @@ func (l *vhSliceLexer) Next() (Token, error) {
 // position of token i is unique (Offset == i) so that token identity is
 // index identity.
 func vhTokens() []Token {
+	pair := vhElidePairs[vChoose("elision", len(vhElidePairs))]
+	vhElideA, vhElideB = pair[0], pair[1]
 	n := vChoose("ntokens", vhMaxTokens+1)
 	toks := make([]Token, 0, n+1)
 	for i := 0; i < n; i++ {
@@ -41,7 +48,7 @@ func vhTokens() []Token {
 
 func vhElided(p *PeekingLexer, i int) bool {
 	t := p.tokens[i]
-	return !t.EOF() && p.elide[t.Type]
+	return !t.EOF() && vhIsElidedType(t.Type)
 }
 
 // vhNx is the specification of "first non-elided token at or after r".
@@ -171,7 +178,7 @@ func vhSpecPeekAny(p *PeekingLexer, raw int, match func(Token) bool) int {
 	i := raw
 	for {
 		t := p.tokens[i]
-		if t.EOF() || match(t) || !p.elide[t.Type] {
+		if t.EOF() || match(t) || !vhIsElidedType(t.Type) {
 			return i
 		}
 		i++
